@@ -20,7 +20,7 @@ func init() {
 	register("C03", func(c *Ctx) { runE2E(c, "C03") })
 	register("C01", func(c *Ctx) { runE2E(c, "C01") })
 	register("C02", func(c *Ctx) { runE2E(c, "C02") })
-	register("C05", func(c *Ctx) { runE2E(c, "C05") })
+	register("C05", func(c *Ctx) { runE2E(c, "C05"); runC05Stage(c) })
 	register("C08", func(c *Ctx) { runE2E(c, "C08") })
 	register("C06", func(c *Ctx) { runCrashEnum(c, "C06") })
 	register("C07", func(c *Ctx) { runCrashEnum(c, "C07") })
